@@ -299,3 +299,16 @@ PROPS["C09"] = {
                      "bounds": "adds N = 30, 24, 60, 44/48, 16 (empty ciphertext), 48 (SHA-256, SignAndEncrypt), the OPN null-certificate chunk (89 bytes) and the two-step OPN/MSG history"},
     },
 }
+
+PROPS["C07"] = {
+    "module": "c07_chunk_size",
+    "level": MC,
+    "technique": "Kani/CBMC symbolic execution of the chunk-size arithmetic (body_size_from_message_size, padding_size, signature_size) for every negotiated chunk size and every body size a sender may put into a chunk",
+    "kernels": ["MessageChunk::body_size_from_message_size", "SecureChannel::padding_size", "SecureChannel::signature_size", "SecureChannel::make_security_header", "SecureChannel::minimum_padding"],
+    "explanation": "ONLY the sentence 'chunks never exceed the negotiated chunk size' (and block alignment of the encrypted part) for symmetric MSG chunks: for every max chunk size in 8196..2^24 and every body of 1..capacity bytes, "
+                   "12 + 4 + 8 + body + padding_size(body) + signature <= max chunk size, and (8 + body + padding + signature) % 16 == 0 when encrypting, for each policy/mode instance. The arithmetic is the same that Chunker::encode and apply_security perform; no buffers are involved.",
+    "outside": "everything else in the statement: reassembly to the original message, sequence numbers/request id/final flag of the produced chunks (receiver side is C12), real signing/encryption and the receive path for whole messages (needs apply_security + verify_and_remove_security in one query: beyond reach, see C09 cost), asymmetric OPN chunks (RSA key sizes: FFI)",
+    "assumptions": ["alloc::fmt::format returns an empty String", "chrono::Utc::now returns a fixed instant", "a chunk's size is header 12 + symmetric security header 4 + sequence header 8 + body + padding + signature (as add_space_for_padding_and_signature computes it)"],
+    "tiers": tiers("c07", qbounds="max chunk size 8196..2^24, body 1..capacity: all values; policies None, Basic128Rsa15 Sign, Basic256 and Basic256Sha256 SignAndEncrypt; unwind 20",
+                   tbounds="adds Aes128Sha256RsaOaep Sign and Aes256Sha256RsaPss SignAndEncrypt"),
+}
